@@ -230,6 +230,7 @@ class World:
                 raise Inconclusive(f'cannot parse {f}: {v["error"]}')
         self.index = index
         self._compute_emitted(mods)
+        self._find_unmodelled(mods)
         out = Out()
         out.w('// GENERATED by /verif/vf/assemble.py from /repo -- do not edit.\n')
         out.w('#![allow(unused_imports, dead_code, unused_variables, unused_mut, unused_parens, non_snake_case, unused_braces, unused_assignments, unreachable_code, non_camel_case_types, unused_macros)]\n')
@@ -314,6 +315,35 @@ class World:
             segs = m['mod'].split('::')
             for i in range(1, len(segs)):
                 self.emitted.setdefault('::'.join(segs[:i]), set()).add(segs[i])
+
+    def _find_unmodelled(self, mods):
+        """stored value types without a slot in the abstract store (new storage added by a change): they get a
+        default `Serialize` impl so that the world still type-checks, and every function that mentions a handle
+        of such a type is degraded to undecided (closed world, DESIGN 2.2)"""
+        spec_text = ''
+        for sp in self.cfg.get('spec', []):
+            for f in sp['files']:
+                f = f['file'] if isinstance(f, dict) else f
+                spec_text += open(os.path.join(self.dir, f)).read()
+        self.auto_serialize = set()
+        self.unmodelled_handles = set()
+        known_generic = {'u64'}
+        for m in mods:
+            if 'file' not in m:
+                continue
+            path = os.path.join(REPO, m['file'])
+            for it in self.index[path]['items']:
+                if it['kind'] == 'const':
+                    mt = re.match(r'^(Item|Map)\s*<(.*)>$', it['ty'].strip(), re.S)
+                    if not mt:
+                        continue
+                    vt = mt.group(2).split(',')[-1].strip()
+                    base = vt.split('::')[-1]
+                    if base in known_generic:
+                        continue
+                    if not re.search(r'impl\s+crate::serde::Serialize\s+for\s+(?:[\w:]*::)?' + re.escape(base) + r'\b', spec_text):
+                        self.auto_serialize.add(base)
+                        self.unmodelled_handles.add(it['name'])
 
     def _shim_names(self, shim):
         if not hasattr(self, '_shim_cache'):
@@ -649,6 +679,8 @@ class World:
                     f'    open spec fn eq_spec(&self, o: &{name}) -> bool {{ *self == *o }}\n}}\n'
                     f'impl PartialEq for {name} {{\n    #[verifier::external_body]\n'
                     f'    fn eq(&self, o: &{name}) -> (r: bool) ensures r == (*self == *o) {{ unimplemented!() }}\n}}\n')
+        if name in getattr(self, 'auto_serialize', set()) and 'serialize' not in optset:
+            gen += f'impl crate::serde::Serialize for {name} {{}}   // no slot in the abstract store: functions using it are undecided\n'
         if 'prostmsg' in optset:
             gen += f'impl crate::prost::Message for {name} {{}}\n'
         if 'serialize' in optset:
@@ -782,8 +814,9 @@ class World:
             if pin is None:
                 raise Inconclusive(f'{c.origin}: stub {cname} has no pin=<sha> option (current body: pin={body_sha})')
             if pin != body_sha:
-                raise Inconclusive(f'lost anchor: the body of {modpath}::{cname} changed (pin {pin}, now {body_sha}); its contract is ASSUMED, '
-                                   f'not verified, and was written for the pinned body')
+                # the assumed contract was written for another body: this function, and whatever depends on it, is undecided
+                self.degraded[f'{modpath}::{cname}'] = (f'lost anchor: the body changed (pin {pin}, now {body_sha}); its contract is ASSUMED, '
+                                                       f'not verified, and was written for the pinned body')
         variants = [('main', None)]
         if reach and not stub and 'noreach' not in c.opts:
             variants = [('stub', None), ('reach', None)]
@@ -791,6 +824,12 @@ class World:
             for pname in c.probes:
                 variants.append(('probe', pname))
         forced = f'{modpath}::{cname}' in self.force_stub
+        if getattr(self, 'unmodelled_handles', None) and not stub:
+            body_txt = src[it['span'][0]:it['span'][1]].decode('utf-8', 'ignore')
+            hit = [h for h in self.unmodelled_handles if re.search(r'\b' + re.escape(h) + r'\b', body_txt)]
+            if hit:
+                forced = True
+                self.degraded[f'{modpath}::{cname}'] = 'touches storage outside the abstract store: ' + ', '.join(sorted(hit))
         if forced and not stub:
             self.degraded.setdefault(f'{modpath}::{cname}', 'does not type-check in the verified subset')
             variants = [('main', None)]
